@@ -162,12 +162,16 @@ class Mix(Scenario):
         if it.pub in ('rx3', 'rx4', 'rx3bp', 'rx4bp'):
             return self._rx_publisher(w, it, side, role, count)
 
+        pname = 'pub' + it.tag + role
+
         def gen():
             for i in range(count):
+                w.api(side, pname, 'produce', (i,))
                 yield it.pay(role, i), (i == count - 1)
 
         async def agen():
             for i in range(count):
+                w.api(side, pname, 'produce', (i,))
                 yield it.pay(role, i), (i == count - 1)
 
         cb = {'on_cancel': lambda: w.api(side, 'pub' + it.tag + role, 'cancel', ()),
@@ -424,6 +428,12 @@ class Mix(Scenario):
                     out.append(('C09.peer-producer-cancelled', 'C09.peer-producer-cancelled | %s' % cfg,
                                 'CANCEL for stream %d was processed by the peer but its %s was never cancelled' % (
                                     sid, 'handler future' if it.kind == 'rr' else 'publisher')))
+            ci = next((i for i, ev in enumerate(log) if ev[0] == 'api' and ev[1] == resp_ep and ev[2] == pname and ev[3] == 'cancel'), qi)
+            for ev in log[min(ci, qi):]:
+                if ev[0] == 'api' and ev[1] == resp_ep and ev[2] == pname and ev[3] == 'produce':
+                    out.append(('C09.production-stops', 'C09.production-stops | %s | generator-still-pulled' % cfg,
+                                'the peer kept pulling elements from its source (element #%s) after it had processed CANCEL' % (ev[4],)))
+                    break
             for ev in log[qi:]:
                 if ev[0] == 'tx' and ev[1] == resp_ep and ev[2].sid == sid and ev[2].type == R.PAYLOAD and ev[2].next:
                     out.append(('C09.production-stops', 'C09.production-stops | %s' % cfg,
